@@ -25,22 +25,24 @@ func probe(path string) {
 	runner.Cleanup()
 }
 
+var probeSeed int64
+
 // dumpVis prints the batch script of one (shape, site index) and its raw result.
 func dumpVis(shape, siteIdx int, run bool) {
 	sh := &shapes[shape]
 	sites := sitesOf(sh)
 	if siteIdx < 0 {
 		for i, s := range sites {
-			cn := cnFor(0)
+			cn := cnFor(probeSeed)
 			cells := cellsOf(sh, s, cn)
 			res := runner.Run(visScript(sh, s, cells, cn, false), runner.Opts{Fuel: 400_000_000})
 			_, ended := parseCells(res.Out)
-			fmt.Printf("%d %s cells=%d kind=%s ended=%v msg=%s line=%d\n", i, s, len(cells), res.Kind, ended, res.Msg, res.FuelUsed)
+			fmt.Printf("%d %s cells=%d kind=%s ended=%v msg=%s fuel=%d\n", i, s, len(cells), res.Kind, ended, res.Msg, res.FuelUsed)
 		}
 		return
 	}
 	s := sites[siteIdx]
-	cn := cnFor(0)
+	cn := cnFor(probeSeed)
 	cells := cellsOf(sh, s, cn)
 	src := visScript(sh, s, cells, cn, false)
 	fmt.Println(src)
